@@ -226,6 +226,82 @@ pub fn cpc_sweep_layout(c: &CpcSweepCase, info: &mut CaseInfo) -> Result<(), Fai
     cpc_sweep(c, info, true)
 }
 
+/// Every byte value through every window code table: a natural stream up to a chosen coupon count (which selects
+/// the Huffman table), then a batch of rows whose window byte is set to arbitrary 8-bit patterns.
+#[derive(Debug, Clone, Serialize, Deserialize)]
+pub struct CpcWindowCase {
+    pub lg_k: u8,
+    pub seed: u64,
+    pub stream_seed: u64,
+    /// natural coupons first: this many sixteenths of k
+    pub c0_k16: u8,
+    /// then this many rows get a random window byte OR-ed in
+    pub rows: u16,
+    pub rseed: u64,
+}
+
+pub fn cpc_window_case() -> impl Strategy<Value = CpcWindowCase> {
+    (6u8..=11, c05::seed_strategy(), any::<u64>(), 7u8..=120, 1u16..=400, any::<u64>())
+        .prop_map(|(lg_k, seed, stream_seed, c0_k16, rows, rseed)| CpcWindowCase { lg_k, seed, stream_seed, c0_k16, rows, rseed })
+}
+
+pub fn cpc_window(c: &CpcWindowCase, info: &mut CaseInfo, layout: bool) -> Result<(), Fail> {
+    let k = 1u64 << c.lg_k;
+    let target = (k * c.c0_k16 as u64 / 16).max(4);
+    let n = k as f64 * ((target as f64 / k as f64) + 2.0).exp2();
+    let mut s = CpcSketch::with_seed(c.lg_k, c.seed);
+    let mut m = CpcModel::new(c.lg_k);
+    for rc in crate::model::cpc::simulate(c.lg_k, n, c.stream_seed, None) {
+        let rc = if rc == u32::MAX { rc ^ (1 << 6) } else { rc };
+        if m.c >= target {
+            break;
+        }
+        if m.fits_capacity(rc) && m.offer(rc) {
+            s.verif_row_col_update(rc);
+        }
+    }
+    // the window of the image covers columns [offset, offset + 8): give some rows arbitrary bytes there
+    let mut sm = SplitMix(c.rseed);
+    let rows = (c.rows as u64).min(k / 8).max(1);
+    for _ in 0..rows {
+        let row = sm.below(k) as u32;
+        let byte = sm.next() as u8;
+        for j in 0..8u32 {
+            if byte >> j & 1 == 1 {
+                let off = correct_offset(c.lg_k, m.c) as u32;
+                let rc = (row << 6) | (off + j).min(63);
+                if m.fits_capacity(rc) && m.offer(rc) {
+                    s.verif_row_col_update(rc);
+                }
+            }
+        }
+    }
+    let fl = flavor(c.lg_k, m.c);
+    let ctx = format!("lg_k {} C {} flavor {fl} offset {} phase {} ({} rows with arbitrary window bytes)", c.lg_k, m.c, correct_offset(c.lg_k, m.c), cspec::pseudo_phase(c.lg_k, m.c), rows);
+    let bytes = s.serialize();
+    if layout {
+        let im = cspec::decode(&bytes).map_err(|e| Fail { clause: "C12.cpc.undecodable".into(), detail: format!("{ctx}: the independent FM85 decoder cannot read the image: {e}") })?;
+        ensure!(im.num_coupons as u64 == m.c, "C12.cpc.num_coupons", "{ctx}: numCoupons field {}", im.num_coupons);
+        if im.matrix != m.rows {
+            let i = (0..m.rows.len()).find(|&i| im.matrix[i] != m.rows[i]).unwrap_or(0);
+            fail!("C12.cpc.matrix", "{ctx}: decoded row {i} = {:#018x}, the stream implies {:#018x}", im.matrix[i], m.rows[i]);
+        }
+    } else {
+        let d = CpcSketch::deserialize_with_seed(&bytes, c.seed).map_err(|e| Fail { clause: "C11.cpc.rejected".into(), detail: format!("{ctx}: own image rejected: {e}") })?;
+        ensure!(d.num_coupons() as u64 == m.c && d.verif_bit_matrix() == m.rows, "C11.cpc.matrix", "{ctx}: bit matrix changed by the round trip");
+    }
+    info.label(format!("phase={}", cspec::pseudo_phase(c.lg_k, m.c)));
+    info.nontrivial = fl >= 2;
+    Ok(())
+}
+
+pub fn cpc_window_roundtrip(c: &CpcWindowCase, info: &mut CaseInfo) -> Result<(), Fail> {
+    cpc_window(c, info, false)
+}
+pub fn cpc_window_layout(c: &CpcWindowCase, info: &mut CaseInfo) -> Result<(), Fail> {
+    cpc_window(c, info, true)
+}
+
 // ------------------------------------------------------------------------------ Frequent Items
 
 #[derive(Debug, Clone, Serialize, Deserialize)]
